@@ -65,6 +65,8 @@ def c10_jobs(tier, seed):
     j += shards("tsan", "w_lockfree", "c10 --d1 150 --d2 10 --rand 10", 3 if q else 4, s, seed, first=40)
     j += miri("w_lockfree", "c10 --addonly --off 2", 2 if q else 8, s, seed, M1)
     j += miri("w_lockfree", "c10 --off 2", 2 if q else 8, s, seed, M2, first=10)
+    # owner dies inside add / remove: every atomic-operation death point, then recover + refresh
+    j += [Job("dbg", "w_lockfree", "c10 --part midop", timeout=600, engine="atomic-op death points"), Job("rel", "w_lockfree", "c10 --part midop", timeout=600, engine="atomic-op death points")]
     return j
 
 
@@ -281,7 +283,7 @@ PROPS = {
         "level": "exploration",
         "jobs": c10_jobs,
         "miri_full": miri_full,
-        "rule": "random programs on mpmc::Container (capacity 1-3 so slots are reused, self-checking entries of 8/32/128 bytes): 1-2 writer threads add/remove/abandon-under-dead-owner/recover, one reader refreshing its snapshot; every program under hook off / every depth-1 stall plan / sampled depth-2 / random delays (debug, release, TSan) and Miri (full mode add-only regime, SC mode general). Non-trivial = an add overlapped a refresh in time; distinct = distinct (program, interleaving signature, snapshot sequence).",
+        "rule": "death inside an operation (w_lockfree c10 --part midop, exhaustive): for capacities 1-3, entry sizes 8/32/128 bytes and every combination of live entries and freed slots, an add or a remove under a dead owner id is cut off before EACH of its atomic operations (the atomics hook unwinds out of the call: nothing after that operation happens), a survivor recovers the dead owner, then a reader that had a snapshot and a fresh reader refresh: no entry of the dead owner, exactly the live entries, every entry completely written, the slot reusable; random programs on mpmc::Container (capacity 1-3 so slots are reused, self-checking entries of 8/32/128 bytes): 1-2 writer threads add/remove/abandon-under-dead-owner/recover, one reader refreshing its snapshot; every program under hook off / every depth-1 stall plan / sampled depth-2 / random delays (debug, release, TSan) and Miri (full mode add-only regime, SC mode general). Non-trivial = an add overlapped a refresh in time; distinct = distinct (program, interleaving signature, snapshot sequence).",
         "assumptions": COMMON_ASSUMPTIONS,
         "floor": (1000, 100),
     },
